@@ -244,6 +244,8 @@ from . import helpers, wiring
 
 from . import initial
 
+from . import removals
+
 OBLIGATIONS = [
     ('C18.O1', 'inventory', 'every growable collection field of the sessions / endpoint / sync layer is listed; every growth site found by the writer-set analysis is '
      'recorded with its bounding construct; fixed-size collections have no growth site outside constructors.', o1),
@@ -255,4 +257,5 @@ OBLIGATIONS = [
     ('C18.H', 'helpers the rules above rely on', 'the bodies of the helpers named by this property\'s rules compute what the rules assume (next_complete); see rules/helpers.py', helpers.bundle('next_complete')),
     ('C18.W', 'endpoint construction wiring', 'cap-then-disconnect bounds pending_output only if the session can stop the endpoint that reported Disconnected, which it does per handle of that endpoint: the handle list the builder collected for an address reaches UdpProtocol::new whole (no element-dropping operation on a collection forwarded under its own name), and no configuration wire is crossed; see rules/wiring.py', wiring.rule),
     ('C18.I', 'initial state', 'every constructor gives the fields this property\'s rules interpret (NULL_FRAME = none / nothing yet, 0 = first frame, latches open, typestate start) the value listed in tables/initial_state.json; every field compared with NULL_FRAME anywhere is listed; see rules/initial.py', initial.rule_for('C18')),
+    ('C18.R', 'who may remove', 'every call that takes elements out of a collection this property\'s rules rely on (keyed removal from a map, or bulk / positional removal) is one of the reviewed sites in tables/removals.json; a lookup turned into a removal, a second prune, a clear on another path is reported; see rules/removals.py', removals.rule_for('C18')),
 ]
